@@ -1,47 +1,95 @@
 CHECK = dict(
     level='exploration',
+    # hex.c is compiled as an object of its own (lib=): the harness includes only <librfn/hex.h>, so no static or helper of
+    # hex.c can clash with a harness name, and whatever hex.c keeps in statics is reset before every case.
+    # The deadlines are safety caps (the enumeration needs well under a minute of 16 cores in the quick tier).
     parts=[dict(name='c18', src=['harness/c18_hex.c'], lib=['hex.c'], workers=16,
-                deadline=dict(quick=900, thorough=3000))],
-    rule='bounded-exhaustive enumeration driving the real hex.c, three sub-spaces: (a) byte arrays of length 0..49 with '
-         'every byte value at every position over 5 backgrounds, dumped with hex_dump_to_file into a memstream, shape of '
-         'the text checked, text parsed back with hex_get_byte; (b) every text of the grammar '
-         '[hexdigits ":"] (ws* ["0x"] pair)* ws* "\\n" over a finite token alphabet with 1 and 2 lines of up to 3 pairs, '
-         'plus all 22x22 two-character hex pairs alone/prefixed/after an address/next to a second pair, expected bytes '
-         'from an independent reference parser of that grammar; (c) ALL strings up to the stated length over '
-         "{0,a,F,x,:,space,newline,z,0x80}, each placed with its NUL as the last byte before a PROT_NONE page and again "
-         'starting right after one. Every text is read with both calling protocols (resume with s=NULL; '
-         'hex_get_byte(cur,&cur) as tests/hextest.c does). An evaluation is one (case, protocol, placement) run; it is '
-         'non-trivial when at least one byte was returned or dumped; distinct = distinct tuples (part, fault, complete '
-         'sequence of results including the calls after the first -1 [, dump text]), counted with a hash set, each tuple '
-         'only by the worker owning its hash (lower bound of the global count)',
-    bounds=dict(quick='(a) lengths 0..49 x every position x 256 values x 5 backgrounds (0x00,0x0f,0xa0,0xff,ramp); '
-                      '(b) lines = {none,"10:","0fA0:"} x up to 3 x ({"", " ", tab} ["0x"] {0a,F9}) x {"", " \\t\\r"} = 11,310 '
-                      'lines, every 1- and 2-line text (127.9 M), plus the 22x22 pair sweep; (c) all 9^0+..+9^7 = '
-                      '5,380,840 strings of length <= 7, 2 placements x 2 protocols',
-                thorough='(a) as quick; (b) pair values {0a,F9,bC}: 37,050 lines, every 1- and 2-line text (1.37 G); '
-                         '(c) all 48,427,561 strings of length <= 8, 2 placements x 2 protocols'),
-    assumptions=['cursor protocol: first call hex_get_byte(text,&p), later calls hex_get_byte(NULL,&p) (mode 1); the '
-                 'hextest.c idiom hex_get_byte(cur,&cur) (mode 2) is value-checked only on texts without an address '
-                 'prefix, because there every call is a "first" call and a later "addr:" swallows the rest of the '
-                 'current line by design of the API',
+                deadline=dict(quick=1800, thorough=7200))],
+    rule='bounded-exhaustive enumeration driving the real hex.c (linked as a separate object), five families: '
+         '(a) byte arrays dumped with hex_dump_to_file into a bounded stdio sink; the text must be lines of 16 two-digit '
+         'lower-case pairs equal to the array (white space, an address prefix, 0x and a missing final newline are tolerated '
+         'because the statement does not exclude them) and is parsed back with hex_get_byte: a1 = lengths 0..49 with every '
+         'byte value at every position over 6 backgrounds, a2 = lengths on both sides of 2^6..2^10 and 2^12 (thorough: 2^15, '
+         '2^16) and of the next multiple of 16, 6 backgrounds (two with a period that is no power of two, so that a wrapped '
+         'index reads a different byte), the odd byte next to every such boundary, 10 boundary values; '
+         '(b) every text of the grammar [ws* hexdigits ":"] (ws* ["0x"] pair)* ws* "\\n" over finite token alphabets with 1 and '
+         '2 lines of up to 3 pairs - basic alphabet {"", " ", tab} / {"", " \\t\\r"} and a wide one that adds the repeated '
+         'separators "  ", "\\t\\t", "   " between pairs, after a pair and before the newline - plus all 22x22 two-character hex '
+         'pairs alone/prefixed/after an address/next to a second pair, 18 white-space strings (CR, VT, FF, repeated blanks and '
+         'tabs) in every position of 12 line shapes, indented and up to 24-digit addresses; expected bytes from an independent '
+         'reference parser of that grammar; '
+         '(c) ALL strings up to the stated length over {0,a,F,x,:,space,newline,z,0x80} and ALL strings up to a smaller length '
+         'over a 28-character alphabet with every character a libc number parser or a sloppy range test treats specially '
+         "(- + x X, both ends and the outer neighbours / : @ G ` g of the hex ranges, tab, CR, and the high bytes 0x80 0x8a 0xa0 "
+         '0xb0 0xc6 0xe1 0xff that alias white space or hex digits when masked or sign-extended); '
+         '(d) byte sweep: 7 short templates ("00\\n", "00 00\\n", "0x00\\n", "0: 00\\n", "00\\n00\\n", " 00 \\n", "00") with all '
+         '256 byte values at every position and all 256x256 combinations at every pair of positions; '
+         '(e) long texts: 16 shapes (white-space run between pairs / before the first pair / before the newline / after the '
+         'address / before the address / as a line of its own, empty lines, lines, pairs on one line with and without '
+         'separators or 0x, address digits, prefixed lines, a long malformed line) with the count on both sides of 2^7, 2^8, 2^9 '
+         '(thorough: 2^15, 2^16), white space = blanks, tabs, CRs or blank-tab alternating. '
+         'Texts of (b)-(e) end flush against a PROT_NONE page, those of (c) and (d) are also run starting right after one. '
+         'Every text is read with both calling protocols (resume with s=NULL, the cursor first pointing to a readable decoy; '
+         'hex_get_byte(cur,&cur) as tests/hextest.c does). The safety clauses (range, termination within len+2 calls, sticky '
+         '-1, no fault, no endless loop) are judged on every text, the returned bytes on every text of (b)-(e) that the '
+         'reference grammar accepts. An evaluation is one (case, protocol, placement) run; it is non-trivial when at least one '
+         'byte was returned or dumped; distinct = distinct tuples (part, fault, complete sequence of results including the '
+         'calls after the first -1 [, dump text]), counted with a hash set, each tuple only by the worker owning its hash '
+         '(lower bound of the global count)',
+    bounds=dict(quick='(a1) lengths 0..49 x every position x 256 values x 6 backgrounds (0x00,0x0f,0xa0,0xff,ramp,i mod 251) = '
+                      '1,881,601 arrays; (a2) lengths {63..65,79..81,127..129,143..145,255..257,271..273,511..513,527..529,'
+                      '1023..1025,4095..4097} x 6 backgrounds x positions {0,1,15,16,17,127,128,254..257,4095,4096,len-2,len-1} x '
+                      'values {00,09,0a,10,7f,80,9f,a0,f9,ff}; '
+                      '(b) wide alphabet: {none,"10:","0fA0:"} x up to 3 x ({"", " ", tab, "  ", "\\t\\t", "   "} ["0x"] {0a,F9}) x '
+                      '{"", " \\t\\r", "  ", "\\t\\t", "   "} = 216,375 single lines, and every line of up to 2 pairs (9,015) before '
+                      'and after every line of up to 1 pair (375) = 6.76 M two-line texts; basic alphabet: 11,310 lines of up to 3 '
+                      'pairs, every ordered pair of them (127.9 M); the 22x22 pair sweep, 864 separator texts, 126 address texts; '
+                      '(c) all 9^0+..+9^7 = 5,380,840 strings of length <= 7 and all 28^0+..+28^4 = 637,421 strings of length <= 4 '
+                      'over the 28-character alphabet, 2 placements x 2 protocols; (d) 69 position pairs x 65,536 + 33 positions x '
+                      '256 = 4,530,432 texts, 2 placements x 2 protocols; (e) 34 shape/white-space combinations x counts '
+                      '{127,128,129,255,256,257,258,511,512,513} = 340 texts, 2 protocols',
+                thorough='(a1) as quick; (a2) adds lengths {32767..32769, 65535..65537} and positions {32767,32768,65534..65536}; '
+                         '(b) pair values {0a,F9,bC}: 719,835 single lines of the wide alphabet, every line of up to 2 pairs '
+                         '(19,995) before and after every line of up to 1 pair (555) = 22.2 M, every line of up to 3 pairs over '
+                         '{0a,F9} (216,375) before and after every line of up to 1 pair (375) = 162.3 M; basic alphabet: 37,050 '
+                         'lines, every ordered pair (1.37 G); (c) all 48,427,561 strings of length <= 8 and all 17,847,789 '
+                         'strings of length <= 5 over the 28-character alphabet; (d) as quick; (e) adds the counts '
+                         '{32767..32769, 65535..65537} where the text stays within 200,000 characters (544 texts less those '
+                         'counted as skipped)'),
+    assumptions=['cursor protocol: first call hex_get_byte(text,&p), later calls hex_get_byte(NULL,&p) (mode 1; *p points to a '
+                 'readable decoy text before the first call); the hextest.c idiom hex_get_byte(cur,&cur) (mode 2) is '
+                 'value-checked only on texts without an address prefix (there every call is a "first" call; what an '
+                 'address prefix means for a call that starts in the middle of a line is left open by the statement)',
                  'C locale (isspace/isxdigit of bytes >= 0x80 are false); glibc ctype tables accept negative char values',
-                 'dump shape: blanks between pairs and a missing final newline would be tolerated (the statement does '
-                 'not exclude them); lines must hold 16 lower-case pairs, the last one the remainder',
+                 'texts outside the reference grammar (a malformed or unterminated line somewhere) are judged on the safety '
+                 'clauses only: the statement does not say which bytes they yield',
+                 'dump shape: white space between pairs, CR before the newline, an "address:" prefix, 0x in front of a pair '
+                 'and a missing final newline are tolerated (the statement does not exclude them); every line must hold 16 '
+                 'lower-case pairs, the last one the remainder; a dump that writes more than 16*len+4096 characters is a '
+                 'violation (dump-runaway)',
                  'memory safety is observed with guard pages (a read one byte past the NUL or one byte before the first '
-                 'character faults); reads inside the page but outside the string on the other side are not observable'],
+                 'character faults); reads inside the page but outside the string on the other side are not observable',
+                 'the sink of the dump is a stdio stream created with fopencookie (fully buffered, caller-side locking)'],
 )
 CHECK.update(
-    technique='bounded-exhaustive enumeration of arrays, grammar texts and all short strings against a reference parser, '
-              'with guard-page placement for memory safety',
-    level_text='Every byte array of length 0..49 with one odd byte (all 256 values at all positions, 5 backgrounds) is '
-               'dumped and parsed back; every 1- and 2-line text of the well-formed grammar over a finite token alphabet '
-               'is compared with a reference parser; every string of length <= 7 (<= 8 thorough) over a 9-character '
-               'alphabet is parsed flush against guard pages on either side, checking range, termination within len+2 '
-               'calls, sticky -1 and absence of faults. Lengths/alphabets are bounded, hence exploration.',
-    level_note='Trusted: the reference grammar parser (40 lines), the shape checker, mmap/mprotect guard pages. Arrays '
-               'with two or more independent odd bytes, texts with more than 2 lines or 3 pairs per line, and strings '
-               'longer than 8 characters are not enumerated. No ASan build: the guard pages are the (more precise) '
-               'memory oracle and a sanitizer abort would be a harness error rather than a recorded violation.',
+    technique='bounded-exhaustive enumeration of arrays, grammar texts, all short strings, byte sweeps and long texts against a '
+              'reference parser, with guard-page placement for memory safety, on five (thorough: six) builds of hex.c',
+    level_text='Every byte array of length 0..49 with one odd byte (all 256 values at all positions, 6 backgrounds) and arrays '
+               'of lengths on both sides of 2^6..2^12 (thorough: 2^15, 2^16) are dumped and parsed back; every 1- and 2-line text '
+               'of the well-formed grammar over finite token alphabets (including repeated separators) is compared with a '
+               'reference parser; every string of length <= 7 (<= 8 thorough) over a 9-character alphabet and of length <= 4 '
+               '(<= 5) over a 28-character alphabet of special characters, every one- and two-position byte substitution (all '
+               '256 / 256x256 values) in 7 short templates, and long texts with counts on both sides of 2^7..2^9 (thorough: '
+               '2^15, 2^16) are parsed flush against guard pages, checking range, termination within len+2 calls, sticky -1, '
+               'absence of faults and endless loops, and the returned bytes whenever the text is in the grammar. The whole '
+               'enumeration is repeated on gcc -Os, -O0, -DNDEBUG and -funsigned-char builds (thorough: clang). Lengths and '
+               'alphabets are bounded, hence exploration.',
+    level_note='Trusted: the reference grammar parser (40 lines, also the shape checker of the dump), mmap/mprotect guard '
+               'pages, fopencookie. Arrays with two or more independent odd bytes, texts with more than 2 lines or 3 pairs '
+               'per line outside the long-text shapes, strings longer than 8 characters outside the templates, texts whose '
+               'last line has no newline (safety clauses only) and interleaved parses of two texts are not enumerated. No '
+               'ASan build: the guard pages are the (more precise) memory oracle and a sanitizer abort would be a harness '
+               'error rather than a recorded violation.',
     design_ref='DESIGN.md section 4, C18',
 )
 
